@@ -159,6 +159,8 @@ func sockRun(r *hx.Rand, scratch string, nUDP, nTCP int) ([]Input, []Obs, []stri
 	}
 	fmt.Fprintf(&sb, "[[port]]\nport=\"tcp/127.0.0.1:%d\"\nservices=[\"s3\"]\n", ports[0])
 	fmt.Fprintf(&sb, "[[port]]\nport=\"tcp/127.0.0.1:%d\"\nservices=[\"s1\",\"s2\",\"s3\"]\n", ports[1])
+	// the same port number under both protocols, with different services: each keeps its own
+	fmt.Fprintf(&sb, "[[port]]\nport=\"tcp/127.0.0.1:%d\"\nservices=[\"s3\"]\n", ports[2])
 	fmt.Fprintf(&sb, "[[port]]\nport=\"udp/127.0.0.1:%d\"\nservices=[\"s1\",\"s2\",\"s3\"]\n", ports[2])
 	fmt.Fprintf(&sb, "[[port]]\nports=[\"udp/127.0.0.1:%d\",\"tcp/127.0.0.1:%d\"]\nservices=[\"s3\"]\n", ports[3], ports[4])
 	l, err := lab.StartSocket(sb.String(), scratch, fmt.Sprintf("127.0.0.1:%d", ports[0]))
@@ -199,13 +201,18 @@ func sockRun(r *hx.Rand, scratch string, nUDP, nTCP int) ([]Input, []Obs, []stri
 		wg.Add(1)
 		go func(payload []byte) {
 			defer wg.Done()
-			c, err := net.Dial("tcp", fmt.Sprintf("127.0.0.1:%d", ports[1]))
+			// a third of the TCP connections go to the port number that is also a UDP port
+			tport, tsvcs := ports[1], svcs
+			if len(payload)%3 == 0 {
+				tport, tsvcs = ports[2], svcs[2:]
+			}
+			c, err := net.Dial("tcp", fmt.Sprintf("127.0.0.1:%d", tport))
 			if err != nil {
 				return
 			}
 			c.Write(payload)
 			mu.Lock()
-			all = append(all, sent{in: Input{Proto: "tcp", Svcs: svcs, Segs: []hx.B{payload}}, lport: c.LocalAddr().(*net.TCPAddr).Port, proto: "tcp"})
+			all = append(all, sent{in: Input{Proto: "tcp", Svcs: tsvcs, Segs: []hx.B{payload}}, lport: c.LocalAddr().(*net.TCPAddr).Port, proto: "tcp"})
 			mu.Unlock()
 			time.Sleep(150 * time.Millisecond)
 			c.Close()
